@@ -562,7 +562,8 @@ def u_registry(root):
 def u_cost_identifiers(root):
     """what a fit writes as `cost_function` for a built-in cost function is a key the reader knows"""
     eng = engine(root, ["kafe2/fit/_base/cost.py", "kafe2/fit/unbinned/cost.py", "kafe2/fit/xy/cost.py", "kafe2/core/constraint.py", "kafe2/fit/io/file.py"],
-                 {"CostFunction": {"_kafe2go_identifier": PYOBJ, "_add_determinant_cost_ga": PYOBJ, "_needs_errors": PYOBJ, "_is_chi2": PYOBJ, "_saturated": PYOBJ, "_formatter": PYOBJ}}, [])
+                 {"CostFunction": {"_kafe2go_identifier": PYOBJ, "_add_determinant_cost_ga": PYOBJ, "_needs_errors": PYOBJ, "_is_chi2": PYOBJ, "_saturated": PYOBJ, "_formatter": PYOBJ, "_fail_on_no_matrix": PYOBJ,
+                                   "_fail_on_no_errors": PYOBJ, "_errors_valid": PYOBJ}}, [])
 
     def keys_of(path, table="STRING_TO_COST_FUNCTION"):
         for stmt in eng.repo.files[path][1].body:
@@ -584,6 +585,38 @@ def u_cost_identifiers(root):
                 e.write_field(st, me_, "_formatter", fm)
                 return {k_: (VStr(v_) if isinstance(v_, str) else VBool(z3.BoolVal(v_))) for k_, v_ in cfg.items()}
             eng.verify(cls, "__init__", None, init, contract=c, tag=str(cfg) if cfg else "")
+    # chi2 and negative log-likelihood cost functions name themselves after the function they wrap: the reader's table must lead from that name back to THIS configuration
+    def table_of(path, table="STRING_TO_COST_FUNCTION"):
+        for stmt in eng.repo.files[path][1].body:
+            if isinstance(stmt, ast.Assign) and any(isinstance(t, ast.Name) and t.id == table for t in stmt.targets) and isinstance(stmt.value, ast.Dict):
+                return {k_.value: (ast.unparse(v_.elts[0]), ast.literal_eval(v_.elts[1])) for k_, v_ in zip(stmt.value.keys, stmt.value.values) if isinstance(k_, ast.Constant) and isinstance(v_, ast.Tuple)}
+        return {}
+    table = table_of("kafe2/fit/_base/cost.py")
+    handle = {}
+    mk(eng, "CostFunction", "__init__", result=lambda vw: (handle.__setitem__("name", vw.args["cost_function"].name if isinstance(vw.args.get("cost_function"), VBound) else None), VNone())[1])
+    mk(eng, "CostFunction", "name", "getter", result=lambda vw: VStr(handle["name"]) if handle.get("name") else VNone())
+    DEFAULTS = {"CostFunction_NegLogLikelihood": {"data_point_distribution": "poisson", "ratio": False}, "CostFunction_Chi2": {"errors_to_use": "covariance", "fast_math": False, "add_determinant_cost": True}}
+    for cls, configs in (("CostFunction_NegLogLikelihood", [dict(data_point_distribution=d_, ratio=r_) for d_ in ("gaussian", "poisson") for r_ in (False, True)]),
+                         ("CostFunction_Chi2", [dict(errors_to_use="covariance", fast_math=False), dict(errors_to_use="covariance", fast_math=True), dict(errors_to_use="pointwise", fast_math=False), dict(errors_to_use=None, fast_math=False, add_determinant_cost=False)])):
+        for cfg in configs:
+            c = Contract(cls, "__init__")
+
+            def post(vw, cls=cls, cfg=cfg):
+                ident = vw.f(vw.post, vw.self, "_kafe2go_identifier")
+                ok = isinstance(ident, VStr) and ident.s in table
+                out = [("the identifier written for this cost function is a key of the lookup table the reader uses", z3.BoolVal(ok))]
+                if ok:
+                    tcls, tkw = table[ident.s]
+                    full = lambda kw: dict(DEFAULTS[cls], **kw)
+                    out.append(("... and the table leads back to THIS class with THIS configuration (a Gaussian likelihood does not come back as a Poisson one)", z3.BoolVal(tcls == cls and full(tkw) == full(cfg))))
+                return out
+            c.ensures.append(post)
+
+            def init(e, st, me_, cfg=cfg):
+                handle.clear()
+                e.write_field(st, me_, "_formatter", fm)
+                return {k_: (VStr(v_) if isinstance(v_, str) else VNone() if v_ is None else VBool(z3.BoolVal(v_))) for k_, v_ in cfg.items()}
+            eng.verify(cls, "__init__", None, init, contract=c, tag=str(cfg))
     return eng
 
 
